@@ -1884,7 +1884,7 @@ uint32_t bufr_cvt_fval_to_i32(int code, BufrValueEncoding *be, float fval)
             }
          else
             {
-            int32_t sval = round( fval * val_pow );
+            int64_t sval = round( fval * val_pow );
             ival = sval - be->reference;
             }
          }
@@ -1892,7 +1892,7 @@ uint32_t bufr_cvt_fval_to_i32(int code, BufrValueEncoding *be, float fval)
       }
    else
       {
-      int sval = round(fval / inv_pow);
+      int64_t sval = round(fval / inv_pow);
       ival = sval - be->reference;
       if (ival >= maxval) overflow = 1;
       }
